@@ -4,7 +4,7 @@ STRICT = {"O0", "O1", "O2", "O3", "FUNNEL"}
 
 import ast
 
-from .. import astoblig, compq, idflow, pyq
+from .. import astoblig, compq, idflow, pyq, pysrc
 from ..pyflow import Reach
 from ..pysrc import dotted, norm
 
@@ -389,20 +389,37 @@ def _o3(ctx, comp):
             for k in c.keywords:
                 if k.arg in ("name", "rest") and not (isinstance(k.value, ast.Constant) and k.value.value is None):
                     txt = norm(k.value)
-                    ok = "_nonconst" in txt
-                    if "_capture_name(" in txt:
-                        cn = comp.rm.func("_capture_name")
-                        ok = cn is not None and pyq.contains(cn, lambda n: isinstance(n, ast.Call) and (dotted(n.func) or "").endswith("_nonconst")) is not None \
-                            and pyq.contains(cn, lambda n: isinstance(n, ast.If) and "Symbol('_')" in norm(n.test)) is not None
+
+                    def name_ok(e, depth=0):
+                        """True: the name is checked; False: it is not; None: its origin is not recognised."""
+                        t = norm(e)
+                        if isinstance(e, ast.Constant) and e.value is None:
+                            return True
+                        if isinstance(e, ast.IfExp):
+                            r = [name_ok(e.body, depth + 1), name_ok(e.orelse, depth + 1)]
+                            return False if False in r else (None if None in r else True)
+                        if "_nonconst" in t:
+                            return True
+                        if "_capture_name(" in t:
+                            cn = comp.rm.func("_capture_name")
+                            return cn is not None and pyq.contains(cn, lambda n: isinstance(n, ast.Call) and (dotted(n.func) or "").endswith("_nonconst")) is not None \
+                                and pyq.contains(cn, lambda n: isinstance(n, ast.If) and "Symbol('_')" in norm(n.test)) is not None
+                        if isinstance(e, ast.Name) and depth < 4:
+                            defs = [n.value for n in ast.walk(cpat) if isinstance(n, ast.Assign) and len(n.targets) == 1 and isinstance(n.targets[0], ast.Name) and n.targets[0].id == e.id]
+                            if e.id in [a.arg for a in cpat.args.args] or not defs:
+                                return False if e.id in [a.arg for a in cpat.args.args] else None
+                            r = [name_ok(v, depth + 1) for v in defs]
+                            return False if False in r else (None if None in r else True)
+                        return False
+
+                    ok = name_ok(k.value)
                     # `value` in the Symbol arm is protected by the earlier singleton arm (str(value) in None/True/False)
                     if not ok and d == "asty.MatchAs" and txt == "mangle(value)":
                         prior = pyq.contains(cpat, lambda n: isinstance(n, ast.If) and "str(value) in ('None', 'True', 'False')" in norm(n.test))
-                        ok = prior is not None
-                    if ok:
-                        ctx.ok("O3", f"{comp.rm.rel}|compile_pattern|{d}.{k.arg}|{txt}", "constant names excluded")
-                    else:
-                        ctx.bad("O3", f"{comp.rm.rel}|compile_pattern|{d}.{k.arg}|{txt}", f"capture name `{txt}` is not checked with _nonconst", comp.rm.rel, c.lineno,
-                                witness="(match x [a #* None] 1) / (match x {\"k\" 1 #** None} 1): ValueError from compile()")
+                        ok = True if prior is not None else ok
+                    key = f"{comp.rm.rel}|compile_pattern|{d}.{k.arg}|{pysrc.stable(k.value)}"
+                    ctx.decide("O3", key, ok, f"capture name `{txt}` is not checked with _nonconst", comp.rm.rel, c.lineno,
+                               witness="(match x [a #* None] 1) / (match x {\"k\" 1 #** None} 1): ValueError from compile()", detail="constant names excluded")
     ct = comp.rm.func("compile_try_expression")
     # the except variable: the name handed to scope.add(NAME, ...) inside the handler loop; the value it was given
     adds = [c for c in pyq.calls(ct) if isinstance(c.func, ast.Attribute) and c.func.attr == "add" and len(c.args) == 2 and isinstance(c.args[0], ast.Name)]
